@@ -10,7 +10,7 @@ def run(vid):
     try:
         repo = os.path.join(d, 'repo')
         subprocess.check_call(['git','clone','-q','/repo',repo])
-        r = subprocess.run(['git','-C',repo,'apply','--3way','--whitespace=nowarn',os.path.join(VERIF,'neutral',vid,'patch.diff')],capture_output=True,text=True)
+        r = subprocess.run(['git','-C',repo,'apply','--3way','--whitespace=nowarn',os.path.join(VERIF,NDIR,vid,'patch.diff')],capture_output=True,text=True)
         if r.returncode != 0: return vid, {'error':'no apply'}
         env = dict(os.environ, VERIF_REPO=repo, VERIF_EVIDENCE_DIR=os.path.join(d,'ev'))
         res = {}
@@ -22,9 +22,14 @@ def run(vid):
         return vid, res
     finally:
         shutil.rmtree(d, ignore_errors=True)
+NDIR = 'neutral'
 def main():
-    ndir = os.path.join(VERIF,'neutral')
-    vids = sys.argv[1:] or sorted(os.listdir(ndir))
+    global NDIR
+    args = sys.argv[1:]
+    if len(args) >= 2 and args[0] == '--dir':
+        NDIR = args[1]; args = args[2:]
+    ndir = os.path.join(VERIF, NDIR)
+    vids = args or sorted(x for x in os.listdir(ndir) if os.path.isdir(os.path.join(ndir, x)))
     bad = 0
     with concurrent.futures.ProcessPoolExecutor(16) as ex:
         for vid, res in ex.map(run, vids):
